@@ -268,7 +268,7 @@ def settle(pid, verdicts, obs_files, tier, extra_samples=None):
         if tag == "DIVERGENCE":
             diverg.setdefault(sig_key(sig), []).append(k)
         elif tag == "VIOL":
-            if prop == pid:
+            if prop == pid or prop == "*":      # "*": a library call that did not return (harness/par.py)
                 groups.setdefault((clause, sig_key(sig)), []).append(k)
             else:
                 other[prop] = other.get(prop, 0) + 1
